@@ -42,7 +42,7 @@ theorem C18_tags (w₁ w₂ : Bool) (l₁ l₂ : Load) (h : l₁.hookedWith ≠ 
 
 /-- the source read today confines the patch to `get_code` and puts the typechecker hash into the tag -/
 theorem C18_generated_good :
-    Generated.cachePatchScope = "get_code" ∧ Generated.cacheTagHasChecker = true ∧
+    Generated.cachePatchScope = "get_code" ∧ Generated.cacheTagHasChecker = true ∧ Generated.hookKeyChain = "md5-everywhere" ∧
     Generated.cacheTagVersion = 9 := by decide
 
 /-- with the patch spanning the whole `exec_module` a two-run history executes stale code: run 1
